@@ -433,6 +433,8 @@ def spec_scripts(ctx):
         answers = [(c["script"][k] if k < len(c["script"]) else c["dflt"]) for k in range(len(o["log"]))]
         if isinstance(v, str) or v >= 8 * 10 ** 100:
             continue
+        if any(len(a[1]) != c["nparam"] for a in answers):       # outside the oracle contract (len(x) == nparam)
+            continue
 
         def num(t):
             return {"inf": float("inf"), "-inf": float("-inf"), "nan": float("nan")}[t] if isinstance(t, str) else t
